@@ -64,7 +64,7 @@ def run_translator():
     rc, out = sh([GO, "build", "-o", exe, "."], cwd=src, env=GOENV, timeout=600)
     if rc != 0:
         raise RuntimeError("gotrans build failed:\n" + out)
-    rc, out = sh([exe, "-repo", REPO, "-out", os.path.join(TH, "Gen")], timeout=300)
+    rc, out = sh([exe, "-repo", os.environ.get("VERIF_REPO", REPO), "-out", os.path.join(TH, "Gen")], timeout=300)
     markers = [l for l in out.splitlines() if l.startswith("UNTRANSLATED")]
     if rc != 0 and not markers:
         raise RuntimeError("gotrans failed:\n" + out)
